@@ -622,6 +622,11 @@ def _path_avoiding(cfg, start, goal, blocked, build_node):
 GLOBAL_ROOTS = ("sys.stdout", "sys.stderr", "sys.stdin", "os.environ")
 
 
+GLOBAL_SETTERS = ("os.chdir", "logging.captureWarnings", "logging.disable", "np.seterr", "numpy.seterr", "np.set_printoptions", "numpy.set_printoptions",
+                  "sys.setrecursionlimit", "os.umask", "locale.setlocale", "warnings.simplefilter", "warnings.filterwarnings", "sys.settrace", "sys.setprofile",
+                  "gc.disable", "gc.enable", "socket.setdefaulttimeout", "faulthandler.enable")
+
+
 @rule(
     "RESTORE-PAIR",
     ["C15"],
@@ -701,22 +706,31 @@ def restore_pair(repo, res):
                                     cfg.describe_path(p) if p else "",
                                 )
                                 break
-        # os.chdir without a paired chdir back in finally
+        # process-global switches set by a call (cwd, warning capture, logging.disable, numpy error state, recursion limit, umask, ...):
+        # inside library code the first call must be undone by a later call of the same function on every path to both exits.
+        # The command-line entry point (ffcx.main) configures its own process and is exempt.
+        if mod.name == "ffcx.main":
+            continue
         for f in mod.funcs.values():
-            chd = [c for c in calls_in(f.node) if call_name(c) == "os.chdir"]
-            if chd:
+            for setter in GLOBAL_SETTERS:
+                chd = [c for c in calls_in(f.node) if call_name(c) == setter]
+                if not chd:
+                    continue
                 res.functions.add(f.key)
                 cfg = CFG(f.node)
-                k = f"{f.key}:chdir"
+                k = f"{f.key}:{setter.split('.')[-1] if setter != 'os.chdir' else 'chdir'}"
                 res.ob(k)
+                what = f"{setter}(...) changes process-global state"
                 if len(chd) < 2:
-                    res.fail(k, "os.chdir changes the process cwd and is never undone", mod.line(chd[0]))
+                    res.fail(k, f"{what} and is never undone in {f.qualname}: the caller's process keeps the setting after the request", mod.line(chd[0]))
                 else:
                     first = _node_of(cfg, chd[0], "chdir")
                     rest = {_node_of(cfg, c, "chdir").id for c in chd[1:]}
                     for y, kd in cfg.succ[first.id]:
                         if kd == "n" and (cfg.raise_exit.id in cfg.reachable(y, blocked=rest) or cfg.exit.id in cfg.reachable(y, blocked=rest)):
-                            res.fail(k, "cwd changed by os.chdir is not restored on every path", mod.line(chd[0]))
+                            gname = "an exceptional exit (a statement in between raises)" if cfg.raise_exit.id in cfg.reachable(y, blocked=rest) else "a normal return"
+                            res.fail(k, f"{what} at line {chd[0].lineno} and is not undone on a path to {gname}: a failed request leaves the process in the changed state",
+                                     mod.line(chd[0]))
                             break
     # anchor: the swap around ffibuilder.compile must be seen (either as swap instance or as a
     # context-manager based replacement that removed the assignment altogether)
